@@ -487,7 +487,13 @@ def unit_bounded_delete_then_merge(U):
                      "one history on a file database", 1, [] if not r.get("violates") else [{"case": r.get("inputs"), "expected": r.get("expected"), "observed": r.get("observed")}], distinct=1)
 
 
-UNITS = [("bounded.delete_then_merge", unit_bounded_delete_then_merge), ("delete", unit_delete), ("add_relation", unit_add_relation), ("update", unit_update), ("levels", unit_levels)]
+def unit_schema(U):
+    """what is written is what is read back: the tables are plain text / integer stores (checked on the real SCHEMA)"""
+    from contracts import importer as IM_
+    IM_.prove_plain_schema(U, "C10", ['features', 'relations', 'autoincrements', 'duplicates', 'meta', 'directives'])
+
+
+UNITS = [("schema", unit_schema), ("bounded.delete_then_merge", unit_bounded_delete_then_merge), ("delete", unit_delete), ("add_relation", unit_add_relation), ("update", unit_update), ("levels", unit_levels)]
 try:
     from standins import C10 as _S
     UNITS = UNITS + list(_S.UNITS)
